@@ -310,7 +310,7 @@ def lemmas():
 
 # ------------------------------------- policy / typestate / error propagation --
 # Interprocedural dataflow obligations over the real package AST: contracts/C11_flow.py
-from contracts.C11_flow import policy, propagation  # noqa: E402
+from contracts.C11_flow import policy, propagation, configuration  # noqa: E402
 
 
 # --------------------------------------------------------------- executor --
@@ -349,7 +349,7 @@ class C11Executor(_verify.Executor):
 
 EXECUTOR = C11Executor
 
-EXTRA = [policy, propagation]
+EXTRA = [policy, propagation, configuration]
 
 TRUSTED = ["zipfile.ZipFile.infolist()/ZipInfo fields present the central directory (assumed view)"]
 ASSUMED_MODELS = ["zipfile.ZipFile (constructor, infolist, close, context manager)", "zipfile.ZipInfo.file_size/compress_size/is_dir",
